@@ -153,8 +153,8 @@ def _run_variant(args):
         shutil.rmtree(d, ignore_errors=True)
 
 
-def run_refactor_variants(prop: str, root: str, jobs: int = 9) -> dict:
-    names = ["identity", "nodoc", "rename", "compvars", "tempret", "elimtemps", "ifflip", "elseify", "guardswap"]
+def run_refactor_variants(prop: str, root: str, jobs: int = 11) -> dict:
+    names = ["identity", "nodoc", "rename", "compvars", "tempret", "elimtemps", "ifflip", "elseify", "guardswap", "addassert", "kwreorder"]
     with ProcessPoolExecutor(max_workers=jobs) as ex:
         res = list(ex.map(_run_variant, [(prop, root, n) for n in names]))
     for r in res:
